@@ -64,7 +64,7 @@ for (fam, B) in (("skinny128", 16), ("skinny64", 8), ("mantis", 8)):
     J(c + "def_init", ["C15", "C16", "C11"], HC, "h_def_init", enforce=P + "_init", cbmc=MF,
       must_have=PC, replay=R + "_life", note="calloc may fail: 0 and nothing allocated; else fresh zeroed context, offset = block")
     J(c + "def_cleanup", ["C15", "C17"], HC, "h_def_cleanup", enforce=P + "_cleanup",
-      replace=["skinny_cleanse"], must_have=PC + ["C17 erasure"], replay=R + "_life",
+      replace=["skinny_cleanse"], must_have=PC + ["C17 erasure"], replay=R + "_life,erase",
       note="free() redirected to a checker asserting the whole context is zero at the moment of release; freed exactly once; NULL ctx: empty frame")
     if fam != "mantis":
         J(c + "def_set_key", ["C10", "C14", "C05"], HC, "h_def_set_key", enforce=P + "_set_key",
@@ -118,7 +118,7 @@ J("m.swap_modes", ["C03", "C11"], HM, "h_swap_modes", enforce="mantis_swap_modes
 
 # ------------------------------------------------------------------ helpers of skinny-internal.h (layer A)
 HI = "h_internal.c"
-J("i.cleanse", ["C17"], HI, "h_cleanse", enforce="skinny_cleanse", must_have=LC + PC, replay="ctr128_life",
+J("i.cleanse", ["C17"], HI, "h_cleanse", enforce="skinny_cleanse", must_have=LC + PC, replay="erase",
   note="volatile walking pointer; symbolic size <= 4096; every byte zero (witness), nothing else written")
 J("i.xor", ["C05", "C09"], HI, "h_xor", enforce="skinny_xor", must_have=LC + PC, replay="ctr128",
   note="symbolic size <= 128; in-place or disjoint; witness byte")
@@ -140,7 +140,7 @@ for (fam, B) in (("skinny128", 16), ("skinny64", 8), ("mantis", 8)):
       must_have=PC, replay=R + "_life",
       note="NULL -> 0; calloc failure -> 0 with inert object; success: zeroed schedule, back end = widest offered by the CPU model, parallel_size matches")
     J(c + "cleanup", ["C15", "C17"], HP, "h_cleanup", enforce=P + "_cleanup", replace=["skinny_cleanse"],
-      must_have=PC + ["C17 erasure"], replay=R + "_life")
+      must_have=PC + ["C17 erasure"], replay=R + "_life,erase")
     for (tag, dfs) in ((("", []),) if fam != "mantis" else ((".len16", ["VERIF_CASE_LEN=16"]), (".invalid", ["VERIF_CASE_INVALID=1"]))):
         J(c + "set_key" + tag, ["C10", "C14"], HP, "h_set_key", enforce=P + "_set_key", defs=dfs,
           replace=[fam + "_set_key"], must_have=PC, replay=R + "_life")
@@ -200,11 +200,11 @@ SIMD = [("skinny128-ctr-vec128", "skinny128", "skinny128_ctr_vec128", 16, 4, "v1
         ("mantis-ctr-vec128", "mantis", "mantis_ctr_vec128", 8, 8, "vm.", ["-msse2"], "mantis_ecb_encrypt_eight", "mantis_ctr_increment", "skinny64_xor", "ctrm")]
 for (fn, fam, P, B, LANES, c, fl, EFN, INC, XB, R) in SIMD:
     HS = "h_%s.c" % fn.replace("-", "_")
-    J(c + "init", ["C15", "C16", "C05", "C06", "C11"], HS, "h_init", enforce=P + "_init", cflags=fl + ["-mavx2"], cbmc=MF, replace=[INC, "skinny_cleanse"],
+    J(c + "init", ["C15", "C16", "C05", "C06", "C11"], HS, "h_init", enforce=P + "_init", cflags=fl, replace=["skinny_calloc", P + "_set_counter"],
       must_have=PC, replay=R + "_life," + R,
-      note="real skinny_calloc inlined, calloc may fail; success: base pointer kept, offset = batch, lanes hold counters 0..%d" % (LANES - 1))
+      note="skinny_calloc replaced by its contract (may return NULL; layout: aligned pointer == block base); success: base pointer kept, offset = batch, witness lane j holds counter j (the back end's own set_counter replaced by its contract)")
     J(c + "cleanup", ["C15", "C17"], HS, "h_cleanup", enforce=P + "_cleanup", cflags=fl, replace=["skinny_cleanse"],
-      must_have=PC + ["C17 erasure"], replay=R + "_life",
+      must_have=PC + ["C17 erasure"], replay=R + "_life,erase",
       note="base pointer read before the wipe, whole context wiped, base freed exactly once (layout: aligned pointer == block base)")
     J(c + "increment", ["C05"], HS, "h_increment", enforce=INC, cflags=fl, loops=False, unwind=B + 1, must_have=PC, replay=R,
       note="lane `column` += inc as a big-endian %d-bit integer incl. every carry and wrap; other lanes unchanged; %d-iteration loop unwound (complete)" % (8 * B, B))
@@ -217,6 +217,8 @@ for (fn, fam, P, B, LANES, c, fl, EFN, INC, XB, R) in SIMD:
     J(c + "encrypt", ["C05", "C06", "C09", "C14"], HS, "h_encrypt", enforce=P + "_encrypt", cflags=fl,
       defs=["VERIF_ROLE_CTR=1"], replace=[EFN, INC, XB, "skinny_xor"], must_have=LC + PC + ["ptr-norm"], replay=R, timeout=2400,
       note="coverage layer with the lanes-consecutive representation invariant; size <= 2^40 symbolic")
+    J(c + "eblock", ["C05", "C06", "C09", "C11"], HS, "h_eblock", enforce=EFN, cflags=fl, must_have=LC + PC, replay=R, timeout=2400,
+      note="layer A: arbitrary witness lane of the keystream buffer == spec encryption of that lane's counter block (lock-step)")
     if fam == "mantis":
         for (tag, dfs) in ((".len16", ["VERIF_CASE_LEN=16"]), (".invalid", ["VERIF_CASE_INVALID=1"])):
             J(c + "set_key" + tag, ["C10", "C14", "C06"], HS, "h_set_key", enforce=P + "_set_key", cflags=fl, defs=dfs,
@@ -234,10 +236,33 @@ for (fn, fl, pre, R) in (("skinny128-parallel-vec128", ["-msse2"], "pv128a.", "p
     HV = "h_%s.c" % fn.replace("-", "_")
     base = "_" + fn.replace("-parallel-", "_parallel_%s_")
     for d, dd in (("enc", "encrypt"), ("dec", "decrypt")):
-        J(pre + dd, ["C07", "C03", "C06", "C09", "C11"], HV, "h_" + d, enforce=base % dd, cflags=fl, must_have=LC + PC, replay=R, timeout=2400,
+        J(pre + dd, ["C07", "C03", "C06", "C09", "C11"], HV, "h_" + d, enforce=base % dd, cflags=fl, must_have=LC + PC, replay=R, timeout=3000,
+          cbmc=(["--slice-formula"] if "vec256" in fn else []), tier=("thorough" if "vec256" in fn else "quick"),
           note="arbitrary witness lane in lock-step with the spec round / inverse round (vector >> rewritten lane-wise, 2.2a); all inputs loaded before the first store (in-place allowed)")
 J("pvm.crypt", ["C07", "C03", "C06", "C09", "C11"], "h_mantis_parallel_vec128.c", "h_crypt", enforce="_mantis_parallel_crypt_vec128", cflags=["-msse2"],
   must_have=LC + PC, replay="parm", timeout=2400, note="witness lane L processed under tweak L, both loops in lock-step with the MANTIS steps")
+
+# ------------------------------------------------------------------ loop-free inversion lemmas over the generated spec (plain CBMC)
+for h, nt in (("h_skinny128_round_inverse", "all 2^(128+64) (state, round key) pairs"), ("h_skinny64_round_inverse", "all (state, round key) pairs"),
+              ("h_mantis_step_inverse", "all states, key cells, tweaks and round-constant indices")):
+    J("lemma." + h[2:], ["C03"], "h_lemmas.c", h, loops=False, must_have=["C03 lemma"], replay=None, functions=["spec (generated)"],
+      note="loop-free, fully symbolic: " + nt)
+
+
+# ------------------------------------------------------------------ loop handling policy
+# Jobs whose enforced function (with its inlined callees) carries NO loop contract are run WITHOUT
+# --apply-loop-contracts and with --unwind 70 --unwinding-assertions instead: dfcc reports "local X is not
+# assignable" for ANY loop without a contract once loop contracts are applied, which would turn a harmless
+# refactoring that introduces a small loop (memcpy -> for) into a false alarm.  With unwinding such a loop is simply
+# executed; a loop that cannot be unwound within 70 iterations fails its unwinding assertion, which the engine
+# reports as UNDECIDED, never as a violation.
+import re as _re
+_LOOPY = _re.compile(r"(ecb_encrypt|ecb_decrypt|set_tk[123]$|xor_tk1$|\.def_encrypt$|^v\w+\.encrypt$|^p\w+\.(encrypt|decrypt|crypt)$|"
+                     r"^i\.(cleanse|xor)$|ecb_crypt|\.eblock$|^pv\w+\.|^lemma\.)")
+for _j in JOBS:
+    if _j.loops and not _LOOPY.search(_j.id):
+        _j.loops = False
+        _j.unwind = _j.unwind or 70
 
 
 def by_id(i):
